@@ -165,15 +165,13 @@ def step (s : Sess) (toks : List String) : Sess × String :=
     match c.toNat? with
     | some c => if c ≥ s.circs.size then bad else
       let w := s.w.applyModifiers s.w.depthFuel s.circs[c]!
-      let (w, orphan) := w.newCircuit (.fixed 1)
-      ({ s with w := w, regs := s.regs.set! c orphan }, "ok")
+      ({ s with w := w }, "ok")
     | none => bad
   | ["flatten", c] =>
     match c.toNat? with
     | some c => if c ≥ s.circs.size then bad else
       let w := s.w.flatten s.circs[c]!
-      let (w, orphan) := w.newCircuit (.fixed 1)
-      ({ s with w := w, regs := s.regs.set! c orphan }, "ok")
+      ({ s with w := w }, "ok")
     | none => bad
   | ["copy", c] =>
     match c.toNat? with
